@@ -42,10 +42,10 @@
 namespace flog = fcppt::log;
 
 // ---- alphabet ---------------------------------------------------------------------
-// locations: 0 = [], 1 = [a], 2 = [a,b]
+// locations addressed by the thread programs: 0 = [], 1 = [a], 2 = [a,b]
 using path = std::vector<int>;
 static path const LOCS[3] = {{}, {0}, {0, 1}};
-static char const *NAMES[2] = {"a", "b"};
+static char const *NAMES[3] = {"a", "b", "c"};
 
 static flog::location to_location(path const &p)
 {
@@ -53,6 +53,23 @@ static flog::location to_location(path const &p)
   for (int n : p)
     l /= flog::name{NAMES[n]};
   return l;
+}
+// every location of depth <= 3 over {a,b,c} (40 nodes): pre-history 3 and its final observation
+static std::vector<path> const &full_tree()
+{
+  static std::vector<path> v = [] {
+    std::vector<path> r{path{}};
+    for (std::size_t i = 0; i < r.size(); ++i)
+      if (r[i].size() < 3)
+        for (int n = 0; n < 3; ++n)
+        {
+          path c = r[i];
+          c.push_back(n);
+          r.push_back(c);
+        }
+    return r;
+  }();
+  return v;
 }
 // level codes: 0 debug, 1 error, 2 none, 3 warning (root default), 4 fatal (pre-history)
 static flog::optional_level lvl_of(int c)
@@ -122,6 +139,7 @@ struct oprec
   int idx;
   opd o;
   int set_level = -1; // for S
+  path loc;           // for S / G: the location
   path objpath;       // for C / R / P
   std::uint64_t call = 0, ret = 0;
   int val = -1; // G / R / P
@@ -133,6 +151,7 @@ struct world
   std::unique_ptr<flog::context> ctx;
   std::unique_ptr<flog::object> preobj;
   std::vector<std::vector<std::unique_ptr<flog::object>>> own; // per thread
+  std::vector<std::vector<path>> ownpath;
 };
 
 static std::unique_ptr<world> make_world(unit const &u)
@@ -145,10 +164,15 @@ static std::unique_ptr<world> make_world(unit const &u)
       }));
   if (u.pre == 1)
     w->ctx->set(to_location(LOCS[2]), lvl_of(4));
+  if (u.pre == 3)
+    for (path const &p : full_tree())
+      if (p.size() == 3)
+        w->ctx->set(to_location(p), lvl_of(4)); // creates all 40 nodes
   if (u.pre == 2)
     w->preobj = std::make_unique<flog::object>(fcppt::make_ref(*w->ctx), to_location(LOCS[1]),
                                                flog::parameters(flog::name{NAMES[1]}, flog::format::optional_function{}));
   w->own.resize(u.progs.size());
+  w->ownpath.resize(u.progs.size());
   return w;
 }
 
@@ -180,18 +204,22 @@ static execution execute(unit const &u, std::vector<vsched::choice> const &prefi
         {
         case 'S':
           r.set_level = static_cast<int>(t); // thread t always sets "its" level: 0 debug, 1 error, 2 none
+          r.loc = LOCS[o.arg];
           w->ctx->set(to_location(LOCS[o.arg]), lvl_of(r.set_level));
           break;
         case 'G':
+          r.loc = LOCS[o.arg];
           r.val = code_of(w->ctx->get(to_location(LOCS[o.arg])));
           break;
         case 'C':
         {
-          // which 0: object(ctx, [], name a) -> node [a];  which 1: object(ctx, [a], name b) -> node [a,b]
+          // which 0: object(ctx, [], name a) -> node [a];  1: object(ctx, [a], name b) -> node [a,b];
+          // 2: object(ctx, [a], name c) -> node [a,c]
           path const parent = o.arg == 0 ? LOCS[0] : LOCS[1];
           w->own[t].push_back(std::make_unique<flog::object>(fcppt::make_ref(*w->ctx), to_location(parent),
                                                              flog::parameters(flog::name{NAMES[o.arg]}, flog::format::optional_function{})));
-          r.objpath = o.arg == 0 ? LOCS[1] : LOCS[2];
+          r.objpath = o.arg == 0 ? LOCS[1] : (o.arg == 1 ? LOCS[2] : path{0, 2});
+          w->ownpath[t].push_back(r.objpath);
           break;
         }
         case 'R':
@@ -219,6 +247,62 @@ static execution execute(unit const &u, std::vector<vsched::choice> const &prefi
         r.objpath = last;
       ex.ops.push_back(r);
     }
+  }
+  // Final observation by the coordinator, strictly after all threads: everything visible is read,
+  // then two more sets are made and everything is read again.  These operations are totally
+  // ordered after all thread operations in the linearizability check.
+  {
+    int const vt = static_cast<int>(u.progs.size());
+    int idx = 0;
+    std::uint64_t stamp = std::uint64_t(1) << 60;
+    std::vector<path> const &obs = u.pre == 3 ? full_tree() : std::vector<path>{LOCS[0], LOCS[1], LOCS[2], path{0, 2}};
+    auto observe_all = [&] {
+      for (path const &p : obs)
+      {
+        oprec r;
+        r.thread = vt;
+        r.idx = idx++;
+        r.o = opd{'G', 0};
+        r.loc = p;
+        r.call = stamp++;
+        r.val = code_of(w->ctx->get(to_location(p)));
+        r.ret = stamp++;
+        ex.ops.push_back(r);
+      }
+      auto read_obj = [&](flog::object &ob, path const &p) {
+        oprec r;
+        r.thread = vt;
+        r.idx = idx++;
+        r.o = opd{'P', 0};
+        r.objpath = p;
+        r.call = stamp++;
+        r.val = code_of(ob.level());
+        r.ret = stamp++;
+        ex.ops.push_back(r);
+      };
+      if (w->preobj)
+        read_obj(*w->preobj, LOCS[2]);
+      for (std::size_t t = 0; t < w->own.size(); ++t)
+        for (std::size_t j = 0; j < w->own[t].size(); ++j)
+          read_obj(*w->own[t][j], w->ownpath[t][j]);
+    };
+    auto final_set = [&](path const &p, int lvl) {
+      oprec r;
+      r.thread = vt;
+      r.idx = idx++;
+      r.o = opd{'S', 0};
+      r.loc = p;
+      r.set_level = lvl;
+      r.call = stamp++;
+      w->ctx->set(to_location(p), lvl_of(lvl));
+      r.ret = stamp++;
+      ex.ops.push_back(r);
+    };
+    observe_all();
+    final_set(LOCS[2], 4);
+    observe_all();
+    final_set(LOCS[1], 3);
+    observe_all();
   }
   // teardown by the coordinator: objects first, then the context
   for (auto &v : w->own)
@@ -261,6 +345,10 @@ struct lin_check
     read_ok.assign(reads.size(), 0);
     if (pre == 1)
       st.sets.emplace_back(LOCS[2], 4);
+    if (pre == 3)
+      for (path const &p : full_tree())
+        if (p.size() == 3)
+          st.sets.emplace_back(p, 4); // the pre-history set every leaf; inner nodes keep the root default
   }
   // a must precede b?
   bool before(int a, int b) const
@@ -314,8 +402,8 @@ struct lin_check
       bool ok = gets_ok;
       std::size_t const sz = st.sets.size();
       if (o.o.kind == 'S')
-        st.sets.emplace_back(LOCS[o.o.arg], o.set_level);
-      else if (o.o.kind == 'G' && st.lookup(LOCS[o.o.arg]) != o.val)
+        st.sets.emplace_back(o.loc, o.set_level);
+      else if (o.o.kind == 'G' && st.lookup(o.loc) != o.val)
         ok = false;
       rec(n_placed + 1, ok);
       st.sets.resize(sz);
@@ -337,6 +425,13 @@ static std::string obs_key(std::vector<oprec> const &ops)
   std::string k;
   for (oprec const &r : ops)
     k += std::string(1, r.o.kind) + std::to_string(r.o.arg) + ":" + std::to_string(r.val) + ",";
+  k += "#";
+  for (oprec const &r : ops)
+  {
+    for (int n : (r.o.kind == 'S' || r.o.kind == 'G') ? r.loc : r.objpath)
+      k += static_cast<char>('a' + n);
+    k += '/';
+  }
   k += "|";
   for (std::size_t a = 0; a < ops.size(); ++a)
     for (std::size_t b = 0; b < ops.size(); ++b)
@@ -513,13 +608,20 @@ static bool has_writer(unit const &u)
 
 static int TOTAL_OPS_CAP = 1000;
 
+static int FAMILY_KIND = 0; // 0 ordinary, 1 big tree (pre-history 3, set-only programs), 2 create-only
+
 static std::vector<unit> make_units(int nthreads, int maxlen, bool reduced)
 {
   std::vector<unit> us;
-  for (int pre = 0; pre < 3; ++pre)
+  for (int pre = (FAMILY_KIND == 1 ? 3 : 0); pre < (FAMILY_KIND == 1 ? 4 : 3); ++pre)
   {
     std::vector<program> progs;
-    gen_programs(maxlen, reduced, pre == 2, progs);
+    if (FAMILY_KIND == 1)
+      progs = {program{opd{'S', 0}}, program{opd{'S', 1}}, program{opd{'S', 2}}, program{opd{'S', 1}, opd{'G', 2}}};
+    else if (FAMILY_KIND == 2)
+      progs = {program{opd{'C', 1}}, program{opd{'C', 2}}, program{opd{'C', 0}}, program{opd{'S', 2}}, program{opd{'S', 1}}};
+    else
+      gen_programs(maxlen, reduced, pre == 2, progs);
     std::vector<std::size_t> idx(static_cast<std::size_t>(nthreads), 0);
     for (;;)
     {
@@ -542,12 +644,14 @@ static std::vector<unit> make_units(int nthreads, int maxlen, bool reduced)
   return us;
 }
 
-static void add_family(std::string const &name, int nthreads, int maxlen, bool reduced, int bound, int nshards, std::size_t stride, int total_ops_cap = 1000)
+static void add_family(std::string const &name, int nthreads, int maxlen, bool reduced, int bound, int nshards, std::size_t stride, int total_ops_cap = 1000,
+                       int family_kind = 0)
 {
   for (int sh = 0; sh < nshards; ++sh)
     vrt::shard(name + "/" + std::to_string(sh), [=] {
       BOUND = bound;
       TOTAL_OPS_CAP = total_ops_cap;
+      FAMILY_KIND = family_kind;
       std::vector<unit> const us = make_units(nthreads, maxlen, reduced);
       std::string const shard = name + "/" + std::to_string(sh);
       if (vrt::S().cfg.replay)
@@ -591,7 +695,11 @@ int main(int argc, char **argv)
   // family A: 2 threads, up to 2 operations each, full alphabet
   add_family("t2_len2", 2, 2, false, th ? 3 : 2, 32, 1);
   // family B: 3 threads, 1 operation each
-  add_family("t3_len1", 3, 1, false, 2, 8, 1);
+  add_family("t3_len1", 3, 1, false, 2, 32, 1);
+  // family E: two overlapping sets on a tree of 40 nodes (a set visits up to 40 nodes under the lock)
+  add_family("big_tree_sets", 2, 1, false, 2, 16, 1, 1000, 1);
+  // family F: 3 threads creating objects below one node (same and different new names), plus sets
+  add_family("t3_create", 3, 1, false, th ? 3 : 2, 16, 1, 1000, 2);
   // family C (thorough): 2 threads, up to 3 operations each, reduced alphabet
   if (th)
     add_family("t2_len3_reduced", 2, 3, true, 2, 32, 1);
